@@ -784,7 +784,7 @@ int main(int argc, char** argv) {
     if (g_poisoned) { rep().set_resume(c + 1); break; }  // leaked, possibly corrupt index: continue in a fresh process
     if (rep().violations_for(g_prop) >= 12) break;
   }
-  if (a.has("directed") && g_prop == "C01") directed_d4();
+  if (a.has("directed") && g_prop == "C01" && cr.begin == 0) directed_d4();  // once per run (the worker that starts at case 0)
   rep().finish();
   if (g_poisoned) _exit(0);  // skip destructors / leak checking of the deliberately leaked index
   return 0;
